@@ -188,3 +188,20 @@ Fixpoint wf_prefix (T : tables) (p : prefix) : Prop :=
       exists part, npart = plist part /\ nwind = windowed T ops part norder /\
                    extend_node T (declared src) ops part norder nrev <> Reject
   end.
+
+(* the columns the documentation promises for an accepted step (natural_join: as a set; the builder may list them in the
+   right operand's order when the right operand has them all) *)
+Definition spec_cols (cols : list string) (s : step) : list string :=
+  match s with
+  | SExtend ops _ _ _ => cols ++ filter (notin cols) (keys ops)
+  | SProject ops group => group ++ filter (notin group) (keys ops)
+  | SSelectRows _ => cols
+  | SSelectCols cs => cs
+  | SDropCols cs => filter (notin cs) cols
+  | SRename m => renamed cols m
+  | SMap m => mapped cols m
+  | SOrder _ _ _ => cols
+  | SJoin b _ _ _ => cols ++ filter (notin cols) b
+  | SConcat _ idc => match idc with None => cols | Some c => cols ++ [c] end
+  end.
+Definition order_fixed (s : step) : bool := match s with SJoin _ _ _ _ => false | _ => true end.
